@@ -4,14 +4,24 @@ from vlib.mirsmt import c11
 
 ENCODED = ["MachineState::trail (TrailRef::Ref arms: HeapCell, StackCell, AttrVar)",
            "Machine::unwind_trail (TrailedHeapVar, TrailedStackVar, TrailedAttrVar arms)",
-           "MachineState::bind, MachineState::bind_attr_var (every cell store is trailed)"]
+           "MachineState::bind, MachineState::bind_attr_var (every cell store is trailed)",
+           "every function that pushes TrailEntry values (tr advances by the number pushed)",
+           "every system_calls.rs function that calls trail() (found from the MIR; now "
+           "delete_all_attributes_from_var, delete_from_attributed_variable_list, "
+           "put_to_attributed_variable_list, fetch_global_var, store_backtrackable_global_var): "
+           "each heap-cell / global-slot store has a trail entry of the required kind naming the "
+           "same location"]
 ASSUME = ["hb / b are the heap top / choice point recorded by the newest choice point (their "
           "maintenance by try/retry/trust is outside)",
           "sufficiency: h older than the newest choice point => an entry of the cell's kind with "
           "value h is pushed; trailing more is not an alarm",
-          "modular-bitfield accessors (get_value, get_tag, build_with) are uninterpreted"]
+          "modular-bitfield accessors (get_value, get_tag, build_with) are uninterpreted",
+          "builtin sites: a store followed by a resource-error return (allocation failure between the "
+          "store and its trail call, as in put_to_attributed_variable_list) is not demanded to be "
+          "trailed - observation recorded in DESIGN 10.4, not demonstrable without fault injection"]
 BOUNDS = "every h, hb, b as 64-bit words; acyclic regions (one loop iteration of unwind_trail)"
-OUTSIDE = ("restoration of hb/b/tr by choice points, attribute-list links, bb_b_put entries, "
+OUTSIDE = ("restoration of hb/b/tr by choice points, the unwinding arms for attribute-list links and "
+           "blackboard entries, stores that bypass trail() altogether in functions that never call it, "
            "callers of bind, and all Prolog-level constructs named in the statement")
 
 
